@@ -116,6 +116,8 @@ class WriterNumbers:
             self.depth -= 1
             return
         try:
+            from . import inline
+            fn = inline.normalize(self.repo, owner, fn)
             self.block(stmts_of(fn), fn, owner, dict(env), guard, {})
         finally:
             self.depth -= 1
@@ -385,34 +387,67 @@ def reader_target(repo: Repo, ci: ClassInfo, k: int) -> Tuple[str, Optional[ast.
             names.add(n.targets[0].id)
 
     def walk_chain(stmts) -> Tuple[str, Optional[ast.AST]]:
+        """Execute the dispatch for chnm = k: follow the branches whose tests fold, stop at the first statement with an effect."""
+        unknown = None
         for st in stmts:
             if isinstance(st, ast.If):
-                cur: Optional[ast.If] = st
                 if not any(nm in norm(st.test) for nm in names):
-                    continue
-                while cur is not None:
-                    t = _ReplaceChnm(k, names).visit(copy.deepcopy(cur.test))
-                    ast.fix_missing_locations(t)
-                    try:
-                        val = repo.fold(t, ci=ci, sf=owner.file)
-                    except NotConst:
-                        return f"?undecidable: {norm(cur.test)}", cur
-                    if val:
-                        body = [_ReplaceChnm(k, names - {"chunk.chnm"}).visit(copy.deepcopy(b)) for b in cur.body]
-                        return body_target(body, repo, ci), cur
-                    nxt = cur.orelse
-                    if len(nxt) == 1 and isinstance(nxt[0], ast.If):
-                        cur = nxt[0]
-                    elif nxt:
-                        return body_target(nxt, repo, ci), cur
-                    else:
-                        cur = None
+                    continue            # a test on something else (e.g. the legacy capture): not part of the dispatch
+                t = _ReplaceChnm(k, names).visit(copy.deepcopy(st.test))
+                ast.fix_missing_locations(t)
+                try:
+                    val = repo.fold(t, ci=ci, sf=owner.file)
+                except NotConst:
+                    return f"?undecidable: {norm(st.test)}", st
+                taken = st.body if val else st.orelse
+                got, node = walk_chain(taken)
+                if got != "" or _leaves(taken):
+                    return got, (node or st)
+                continue
+            if isinstance(st, ast.Return):
                 return "", st
+            if isinstance(st, ast.Assign) and len(st.targets) == 1 and isinstance(st.targets[0], ast.Name) \
+                    and (norm(st.value) == "chunk.chnm" or st.targets[0].id in names):
+                continue
+            if isinstance(st, (ast.Pass,)) or (isinstance(st, ast.Expr) and isinstance(st.value, ast.Constant)):
+                continue
+            body = [_ReplaceChnm(k, names - {"chunk.chnm"}).visit(copy.deepcopy(st))]
+            tgt = body_target(body, repo, ci)
+            if tgt.startswith("?"):
+                unknown = unknown or (tgt, st)
+                continue                # a preparation step (reset(), a local computed on the way): keep looking
+            return tgt, st
+        if unknown:
+            return unknown
         return "", None
-    return walk_chain(stmts_of(fn))
+
+    def _leaves(stmts) -> bool:
+        return bool(stmts) and isinstance(stmts[-1], (ast.Return, ast.Raise))
+    from . import inline
+    flat = inline.flatten(repo, owner, fn)
+    return walk_chain(stmts_of(flat))
+
+
+class _FoldIfExp(ast.NodeTransformer):
+    """(a if <constant test> else b)  ->  the selected operand."""
+
+    def __init__(self, repo, ci):
+        self.repo, self.ci = repo, ci
+
+    def visit_IfExp(self, node):
+        node = self.generic_visit(node)
+        try:
+            v = self.repo.fold(node.test, ci=self.ci)
+            return node.body if v else node.orelse
+        except Exception:
+            return node
 
 
 def body_target(body, repo=None, ci=None) -> str:
+    if repo is not None:
+        body = [_FoldIfExp(repo, ci).visit(copy.deepcopy(b)) for b in body]
+        for b in body:
+            ast.fix_missing_locations(b)
     for st in body:
         if isinstance(st, ast.Assign):
             t = st.targets[0]
@@ -427,9 +462,19 @@ def body_target(body, repo=None, ci=None) -> str:
             ch = attr_chain(f.value.value if isinstance(f.value, ast.Subscript) else f.value)
             if norm(f.value) == "self":
                 m = f.attr
-                return {"load_options": "options", "load_project": "project", "load_label": "label",
-                        "load_instrument": "instrument", "load_sample_meta": "sample_meta", "load_sample_data": "sample_data",
-                        "load_drawn_waveform": "drawn_waveform"}.get(m, m)
+                known = {"load_options": "options", "load_project": "project", "load_label": "label",
+                         "load_instrument": "instrument", "load_sample_meta": "sample_meta", "load_sample_data": "sample_data",
+                         "load_drawn_waveform": "drawn_waveform"}
+                if m in known:
+                    return known[m]
+                # a helper method of the class: what it stores into
+                if repo is not None and ci is not None:
+                    r2 = repo.lookup(ci, m)
+                    if r2 is not None and r2[1] == "method":
+                        inner = body_target(stmts_of(r2[2]), repo, ci)
+                        if not inner.startswith("?"):
+                            return inner
+                return m
             if ch and ch[0] == "self" and f.attr in ("load_chdt", "reset"):
                 if isinstance(f.value, ast.Subscript):
                     idx = norm(f.value.slice)
